@@ -4,6 +4,7 @@ The reference model is written from the documentation and the property statement
 only on the generator's DAG and on index rows read through an independent sqlite connection.
 """
 import os
+import shutil
 import sqlite3
 
 from . import common, gen, schedsim
@@ -105,8 +106,25 @@ def run_case(case, scratch_root):
             argv.append("--stop-early")
         spec = {"root": root, "cwd": inv.get("cwd", ""), "argv": argv, "script": inv.get("script", {}),
                 "strategy": inv.get("strategy", "blocked-fifo"), "seed": inv.get("seed", 0),
-                "inject": inv.get("inject"), "count_lines": inv.get("count_lines", False), "unrelated": inv.get("unrelated")}
+                "inject": inv.get("inject"), "count_lines": inv.get("count_lines", False), "unrelated": inv.get("unrelated"), "outer_env": inv.get("outer_env")}
+        blockers = []
+        for x, sc in inv.get("script", {}).items():
+            if sc.get("launch_fail") == "outdir" and x in tb and tb[x]["kind"] == "run_command":
+                # something that is not a directory sits where the task's output directory belongs
+                bp = os.path.join(root, "cond-out", tb[x]["pkg"], tb[x]["name"] + ".task")
+                os.makedirs(os.path.dirname(bp), exist_ok=True)
+                if os.path.isdir(bp) and not os.path.islink(bp):
+                    shutil.rmtree(bp)
+                if not os.path.lexists(bp):
+                    with open(bp, "w") as f:
+                        f.write("not a directory\n")
+                    blockers.append(bp)
         kind, res = common.run_forked(schedsim.run_invocation, spec, inv.get("timeout", 90))
+        for bp in blockers:
+            try:
+                os.unlink(bp)
+            except OSError:
+                pass
         executed, cached = plan_model(tb, inv["target"], rows_before, inv.get("again", False))
         failed, skipped = outcome_model(tb, executed, inv.get("script", {}))
         recs.append({"inv": inv, "argv": argv, "kind": kind, "res": res if kind == "ok" else None, "err": None if kind == "ok" else res, "tb": {k0: dict(v0) for k0, v0 in tb.items()},
@@ -136,6 +154,13 @@ def usable(rec, out):
         out["inconclusive"].append({"why": "watchdog", "detail": rec["res"]["result"].get("watchdog")})
         return False
     return True
+
+
+def no_process_expected(rec, inv, cand):
+    """real kernel: a task that cannot be launched never produces a probe record; interposed kernel: a task
+    whose output directory cannot be created never reaches the spawn primitive"""
+    sc = inv.get("script", {})
+    return {x for x in cand if sc.get(x, {}).get("launch_fail") and (rec.get("e1") or sc[x]["launch_fail"] == "outdir")}
 
 
 def intervals(rec):
@@ -276,8 +301,7 @@ def oracle_c02(case, tb, rec, out):
             out["violations"].append({"key": "C02:progress-counter-not-1..N", "msg": "progress counters %s, expected 1..%d" % (ks, len(executed)), "witness": W()})
             return
         need_proc = {x for x in executed if tb[x]["kind"] in PROC} - set(rec["skipped"])
-        if rec.get("e1"):
-            need_proc -= {x for x in need_proc if inv.get("script", {}).get(x, {}).get("launch_fail")}
+        need_proc -= no_process_expected(rec, inv, need_proc)
         missing = need_proc - set(spawns)
         if missing:
             out["violations"].append({"key": "C02:needed-task-not-executed", "msg": "needed tasks never spawned: %s" % sorted(missing), "witness": W()})
@@ -334,9 +358,7 @@ def oracle_c03(case, tb, rec, out):
             return
         # 3. independents still run
         need_proc = {x for x in executed if tb[x]["kind"] in PROC and x not in S}
-        if rec.get("e1"):
-            # real kernel: a task that cannot be launched never produces a probe record
-            need_proc -= {x for x in need_proc if inv.get("script", {}).get(x, {}).get("launch_fail")}
+        need_proc -= no_process_expected(rec, inv, need_proc)
         if need_proc - spawned:
             out["violations"].append({"key": "C03:independent-task-not-run", "msg": "unaffected tasks never started: %s (failed=%s skipped=%s)" % (sorted(need_proc - spawned), sorted(F), sorted(S)), "witness": W()})
             return
@@ -566,7 +588,15 @@ def eval_case(arg):
 # --------------------------------------------------------------------------------------------
 # workloads
 # --------------------------------------------------------------------------------------------
-FAULTS = [{"exit": 1}, {"exit": 2}, {"exit": 255}, {"exit": 256 + 3}, {"signal": 9}, {"signal": 11}, {"signal": 15}, {"launch_fail": "chdir"}, {"launch_fail": "exec"}]
+FAULTS = [{"exit": 1}, {"exit": 2}, {"exit": 255}, {"exit": 256 + 3}, {"signal": 9}, {"signal": 11}, {"signal": 15}, {"launch_fail": "chdir"}, {"launch_fail": "exec"}, {"launch_fail": "outdir"}]
+
+
+def pick_fault(rng, t, pool=None):
+    """'outdir' (a file where the output directory belongs) has a predictable location only for run_command"""
+    f = dict(rng.choice(pool or FAULTS))
+    if f.get("launch_fail") == "outdir" and t["kind"] != "run_command":
+        f["launch_fail"] = "chdir"
+    return f
 ALL_STRATS = list(schedsim.STRATEGIES)
 CHEAP_STRATS = [s for s in ALL_STRATS if s not in schedsim.LINE_STRATEGIES]
 
@@ -584,6 +614,9 @@ def mk_history(rng, tasks, target, focus, strategies):
         if focus == "live" and rng.random() < 0.4:
             # children of the cond process that are not tasks (exit statuses differ from the tasks')
             inv["unrelated"] = [dict(rng.choice([{"exit": 0}, {"exit": 5}, {"exit": 1}, {"signal": 9}])) for _ in range(rng.randint(1, 3))]
+        if rng.random() < 0.2:
+            # nested invocation: the enclosing task's COND_* variables are in Conductor's own environment
+            inv["outer_env"] = {"COND_SLOT": str(rng.choice([0, 1, 3, 7])), "COND_NAME": "outer", "COND_OUT": "/outer/cond-out/x.task", "COND_DEPS": "/outer/cond-out/y.task"}
         if focus == "wide":
             inv["jobs"] = rng.choice([1, 2, 2, 3, 3, 4, 6])
             if rng.random() < 0.35:
@@ -591,13 +624,13 @@ def mk_history(rng, tasks, target, focus, strategies):
                 cl = [x for x in gen.closure(tb, tgt) if tb[x]["kind"] in PROC]
                 rng.shuffle(cl)
                 for x in cl[:rng.choice([1, 1, 2, 3])]:
-                    inv["script"][x] = dict(rng.choice(FAULTS + [{"launch_fail": "exec"}, {"launch_fail": "chdir"}]))
+                    inv["script"][x] = pick_fault(rng, tb[x], FAULTS + [{"launch_fail": "exec"}, {"launch_fail": "chdir"}, {"launch_fail": "outdir"}])
         if focus == "faults" or (focus in ("live",) and rng.random() < 0.3) or (focus == "deps" and rng.random() < 0.15):
             cl = [x for x in gen.closure(tb, tgt) if tb[x]["kind"] in PROC]
             rng.shuffle(cl)
             nf = rng.choice([1, 1, 2, 3]) if cl else 0
             for x in cl[:nf]:
-                inv["script"][x] = dict(rng.choice(FAULTS))
+                inv["script"][x] = pick_fault(rng, tb[x])
             if focus == "faults" and rng.random() < 0.35:
                 inv["stop_early"] = True
         if focus == "cache" and k > 0 and rng.random() < 0.3:
@@ -634,7 +667,7 @@ def gen_cases(seed, n, focus, strategies=None, max_tasks=8):
             G = gen.mk_task(rng.choice(["", "a"]), "G", rng.choice(["run_command", "run_experiment"]), par=True)
             fan = [gen.mk_task(rng.choice(["", "a"]), "s%d" % j, rng.choice(["run_command", "run_experiment"]), [G["id"]], par=True) for j in range(k)]
             top = gen.mk_task("", "top", "group", [F["id"]] + [t["id"] for t in fan])
-            inv = {"target": "//:top", "jobs": rng.choice([3, 4, 5, 8]), "again": False, "stop_early": False, "script": {F["id"]: dict(rng.choice(FAULTS))},
+            inv = {"target": "//:top", "jobs": rng.choice([3, 4, 5, 8]), "again": False, "stop_early": False, "script": {F["id"]: pick_fault(rng, F)},
                    "strategy": rng.choice(["blocked-fifo", "blocked-lifo", "blocked-random", "blocked-all", "anywhere"]), "seed": rng.randrange(1 << 30)}
             cases.append({"family": "two-stage-fan-with-failing-sibling", "tasks": gen.dump([F, G] + fan + [top]), "history": [inv]})
     if focus == "faults":
